@@ -198,9 +198,12 @@ class Runnable(ABC):  # pylint: disable=too-many-instance-attributes
         """
         Stop the service, allowing any do() to complete first.
         """
+        if forever:
+            # must be visible before the service thread can notice __stopping: run()'s finally block decides from it
+            # whether done() is called.  A final stop stays final: a later stop(forever=False) does not undo it.
+            self.__shutdown = True
         self.__stopping = True
         self.wake()
-        self.__shutdown = forever
         thread = self.__thread  # otherwise race condition -- self.__thread can change value in another thread
         if thread:
             if threading.current_thread() != thread:
